@@ -86,6 +86,12 @@ CHECKS["C12"] = dict(
   text="Each history (tags, colours, settings, webhooks, marks, renames, deletes, imports with merges; a schedule in which a merge is overtaken by an import; thorough: converter caching, queued imports with tag edits) runs once on the real service under strace. The journal of file mutations below the data directory (create, write with payload and offset, truncate, unlink, rename; 170-230 mutations per history) is validated by a whole-journal replay against the directory on disk. Every prefix - and for every write the variants with its first 0, 1, half and all-but-one bytes - is materialised (about 600 crash states per history) and handed to a supervised worker that starts the real manager on it: New must return, every tag/setting acknowledged before the crash point is present (a call in flight may or may not be), every stream visible before the crash is visible under its id in the same or a newer version, never an older or a garbled one, tags converge to the truth and the service reaches quiescence, also after one more import and one more tag.",
   note="Crash model is process kill (what the kernel has survives, last write possibly cut); no reordering or loss of unsynced data. The final clean shutdown + start of every history is part of its journal, so clean restarts are crash points too. strace is trusted after the conformance replay.")
 
+CHECKS["C20"] = dict(
+  category="exploration", engine="E5-race-pass", design_ref="3/C20",
+  technique="systematic free-running race-detector pass: exhaustive table of (background activity x concurrent API call) pairs, each positioned by the gates, released without waiting and run in a -race child process",
+  text="Model checking proper cannot decide 'no unsynchronised access' (a controlled scheduler's hand-offs are happens-before edges). This check makes the race detector's verdict systematic instead of lucky: for every pair of 6 background activities (first import body, import with indexes present, tagging job body, merge body, conversion body with the harness converter, the 1 s tag-update ticker with pending signals) and 11 API calls (Status, ListTags, KnownPcaps, converter/config/webhook listings, views with all tags + search + release, converter data through a view, AddTag+DelTag, mark add/remove, ImportPcaps, event listener with a tag update, SetConfig+webhooks) the activity is parked at its entry, released WITHOUT waiting and the call is issued up to 200 times while the body, its completion and all follow-up jobs run. A report whose stacks lie in the repository is a violation, keyed by the two top-most repository functions.",
+  note="Exhaustive over the pair table (quick: one execution per pair, thorough: four), not over schedules: the detector judges the accesses that executed. PCAP-over-IP endpoints are not exercised (they dial out).")
+
 NOT_YET = {}
 
 def main():
@@ -125,6 +131,7 @@ def main():
         "engines": [
             {"name": "E4-enum", "path": "harness/mc/par.go, harness/mc/shard.go", "kind_free_text": "exhaustive enumeration of a bounded input space (all ASTs / token sequences / deviations up to a bound), every case run on the real code and on a reference model; optionally in supervised worker processes so hangs, crashes and memory blow-ups are attributed to a case"},
             {"name": "E3-crash-journal", "path": "harness/c12", "serves_properties": ["C12"], "kind_free_text": "strace journal of the file-system mutations of a history on the real service; every journal prefix and torn-write variant is materialised in memory, written out and recovered from by the real start-up code in a supervised worker"},
+            {"name": "E5-race-pass", "path": "harness/c20", "serves_properties": ["C20"], "kind_free_text": "free-running -race build of the service worlds; gates only create the overlap, never order the two overlapping activities"},
             {"name": "E1-bfs", "path": "harness/mc/bfs.go", "kind_free_text": "explicit-state breadth-first search over operation sequences on the real object, successor = fresh object + replay + 1 op, canonical-state dedup, reference model compared after every transition"},
         ],
         "checks": checks,
